@@ -13,9 +13,9 @@ def model(ctx, g, g2):
                    "ClassSet": "<- MC_ClassSet", "MaxInst": "1", "MaxRestore": "0",
                    "ScalarChoices": "<- MC_ScalarChoices", "Attacker": "<- NoAttacker"})
     label = "MC_Restore[%s+%s, 3 saving classes x 6 parameter sets -> 3 classes x 6 sets]" % (g, g2)
-    ctx.mc("MC_Restore", cfg(spec="RestoreSpec", constants=consts, invariants=["RestoreSoundButF6"]), label=label)
+    ctx.mc("MC_Restore", cfg(view="ViewNoLast", spec="RestoreSpec", constants=consts, invariants=["RestoreSoundButF6"]), label=label)
     # the design itself admits F6 (generator not fingerprinted): TLC must find it
-    res = ctx.mc("MC_Restore", cfg(spec="RestoreSpec", constants=consts, invariants=["RestoreSound"]),
+    res = ctx.mc("MC_Restore", cfg(view="ViewNoLast", spec="RestoreSpec", constants=consts, invariants=["RestoreSound"]),
                  label=label + " strict (F6 expected)", expect_violation="RestoreSound")
     return "RestoreSound" in res["violated"]
 
